@@ -353,6 +353,21 @@ def q_c10_bob_steps(bodies):
             if len(accepts) > 1 or (accepts and accepts[0][1] != "PEER"):
                 problems.append(("the accept decision is asked once, for the requesting peer", "sat", tag + " accepts=%s" % (accepts,)))
                 continue
+            # attribution: once a request was ALLOWED its document is on record in the state, whatever happens afterwards —
+            # net::handle_connection reports a failed session with `state.namespace()` (that is how the live engine finds the
+            # (document, peer) slot it has to free)
+            allowed_ns = None
+            for i, kind in enumerate(script):
+                if kind == "I":
+                    if "allow" in pc and "(not allow)" not in pc:
+                        allowed_ns = "NS_%d" % i
+                    break
+                if kind in ("S", "A", "E"):
+                    break
+            if allowed_ns is not None and exp_procs and nsnow != "(C_Some %s)" % allowed_ns:
+                problems.append(("an accepted request is on record in the state (namespace) from the moment it was allowed, so that every later failure of the session is reported for that document", "sat",
+                                 tag + " state.namespace=%s" % nsnow[:40]))
+                continue
             is_ok = ret.startswith("(CE_Poll_Ready (C_Ok ")
             if outcome[0] == "ok":
                 if not is_ok or split_sexpr_args(split_sexpr_args(ret)[0])[0] != outcome[1]:
